@@ -28,10 +28,12 @@ only to explain a disagreement.
 Search: the same runs are compared with the array specification (Coq arr_run + an independent
 Python array written from the property text); ROM reads with data[a].
 
-Verilog: py/verilog_reader.py (C05) did not exist when this was written; the exported text is
-checked for its memory fragment (declaration size, write under enable at posedge clk, asynchronous
-read assign) and that fragment is evaluated by a 30-line interpreter (alias assigns, memory read
-assigns, non-blocking enabled writes) against the array spec.
+Verilog: the exported text is checked for its memory fragment (declaration size, write under enable
+at posedge clk, asynchronous read assign); the fragment is extracted twice -- by regexes here and,
+when available, by the fail-closed Verilog-2001 reader py/verilog_reader.py written for C05 -- and
+evaluated by a 30-line interpreter (alias assigns, memory read assigns, non-blocking enabled
+writes) against the array spec; Mem/MemDefs.v vlog_step is the Coq model of that fragment
+(C08_refines_array_verilog).  The full-module Verilog semantics is C05's subject.
 """
 import ctypes
 import io
@@ -50,7 +52,8 @@ RULE = ('(1) 2-word x 1-bit MemBlock, (nw,nr) write/read ports: every content (e
         'biased to 0, 2^aw-1, 2^31/2^32/2^63/2^64 neighbours and aliases mod 2^32 / 2^64, disabled ports colliding with '
         'enabled ones, read-during-write; (3) RomBlocks from list/dict/function, short/sparse/out-of-range data, '
         'pad_with_zeros; (4) the C hash-map helpers alone with 1..256 buckets.  Back-ends: Simulation, FastSimulation, '
-        'CompiledSimulation, Simulation after synthesize(), after optimize(), Verilog memory fragment.  A case = one '
+        'CompiledSimulation (sub-design with addrwidth <= 64 when it rejects wider ones), Simulation after synthesize() '
+        '(merged and 1-bit I/O), after optimize(), Verilog memory fragment.  A case = one '
         '(memory, history, back-end); distinct by its full content; non-trivial when at least one read returned a word '
         'written earlier in the run and at least one enabled write happened')
 IMPORTS = 'From PyRTL Require Import Mem.MemDefs Mem.MemHarness.'
@@ -280,6 +283,37 @@ def run_post(ctx, cls, post, cfgs, pm, inits, dflt, steps, what):
     return reads, finals
 
 
+def run_post_bitio(ctx, block, cfgs, mems, inits, dflt, steps):
+    """synthesize(merge_io_vectors=False): every Input/Output becomes 1-bit wires named name[i]"""
+    post = pyrtl.synthesize(update_working_block=False, merge_io_vectors=False, block=block)
+    pm = post_mems(ctx, post, mems, 'synthesize(merge_io_vectors=False)')
+    widths = {w.name: w.bitwidth for w in block.wirevector_subset((pyrtl.Input, pyrtl.Output))}
+
+    def bits(name, v):
+        w = widths[name]
+        if w == 1:
+            return {name: v}
+        return {'%s[%d]' % (name, i): (v >> i) & 1 for i in range(w)}
+    sim = pyrtl.Simulation(tracer=pyrtl.SimulationTrace(block=post),
+                           memory_value_map={key: dict(i) for (key, _), i in zip(pm, inits)},
+                           default_value=dflt, block=post)
+    for s in steps:
+        d = {}
+        for k, v in s.items():
+            d.update(bits(k, v))
+        sim.step(d)
+    tr = sim.tracer.trace
+
+    def word(name, t):
+        w = widths[name]
+        if w == 1:
+            return tr[name][t]
+        return sum(tr['%s[%d]' % (name, i)][t] << i for i in range(w))
+    reads = [[[word('m%d_o%d' % (c.k, j), t) for j in range(c.nr)] for t in range(len(steps))] for c in cfgs]
+    finals = [list(sim.inspect_mem(inblock).items()) for (_, inblock) in pm]
+    return reads, finals
+
+
 # ------------------------------------------------------------------ structural gates on the generated programs
 # The theorems C08_fast_program / C08_refines_array_fast quantify over EVERY straight-line program made of
 # `x = d[mem].get(a, default)` and `if en: mem_ws.append((mem, a, v))`; C08_refines_array_compiled over every
@@ -413,6 +447,33 @@ def verilog_memory_fragment(text, cfgs, mems):
             raise VerilogShapeError('mem_%d: %d asynchronous read assigns, expected %d' % (m.id, len(reads), c.nr))
         frag[c.k] = (writes, reads)
     return alias, frag
+
+
+def verilog_fragment_via_reader(text, cfgs, mems):
+    """the same fragment through the fail-closed Verilog-2001 reader written for C05 (py/verilog_reader.py);
+    returns None when that reader is not available or its interface changed"""
+    try:
+        import verilog_reader as vr
+    except Exception:
+        return None
+    try:
+        mod = vr.parse_module(text)
+        alias = {lhs: e[1] for lhs, e in mod.assigns if e[0] == 'id'}
+        depth = {i: (w, d) for i, w, d in mod.mems}
+        wr = dict(mod.memwrs)
+        frag = {}
+        for c, m in zip(cfgs, mems):
+            if depth.get(m.id) != (c.dw, 1 << c.aw):
+                raise VerilogShapeError('reader: mem_%d declared %r, expected (%d, 2^%d)' % (m.id, depth.get(m.id), c.dw, c.aw))
+            frag[c.k] = ([tuple(x) for x in wr.get(m.id, [])],
+                         [(lhs, a) for lhs, i, a in mod.memrds if i == m.id])
+        return alias, frag
+    except VerilogShapeError:
+        raise
+    except vr.ReaderError as e:
+        raise VerilogShapeError('py/verilog_reader.py rejects the exported module: %s' % e)
+    except Exception:
+        return None
 
 
 def verilog_eval(alias, frag, cfgs, inits, steps):
@@ -784,6 +845,17 @@ def random_part(ctx, chk, ndesigns, ncyc_range, compiled_every, post_every, veri
             try:
                 pyrtl.output_to_verilog(buf, block=block)
                 alias, frag = verilog_memory_fragment(buf.getvalue(), cfgs, mems)
+                via = verilog_fragment_via_reader(buf.getvalue(), cfgs, mems)
+                if via is None:
+                    ctx.count('verilog_reader(C05)', 'unavailable')
+                else:
+                    ctx.count('verilog_reader(C05)', 'used')
+                    same = all(sorted(via[1][c.k][0]) == sorted(frag[c.k][0]) and
+                               sorted(via[1][c.k][1]) == sorted(frag[c.k][1]) for c in cfgs)
+                    if not same:
+                        ctx.model_mismatch('the regex reader of this check and py/verilog_reader.py extract different '
+                                           'memory fragments from the exported Verilog', {'design': di})
+                    alias, frag = via
                 res['verilog'] = verilog_eval(alias, frag, cfgs, inits, steps)
             except VerilogShapeError as e:
                 ctx.spec_violation('verilog:memory-block-shape', 'exported Verilog memory fragment: %s' % e,
@@ -796,6 +868,13 @@ def random_part(ctx, chk, ndesigns, ncyc_range, compiled_every, post_every, veri
             res['synth+opt'] = run_post(ctx, pyrtl.Simulation, post, cfgs, pm, inits, dflt, steps, 'optimize')
             if di % (2 * post_every) == 0:
                 res['synth+opt/fast'] = run_post(ctx, pyrtl.FastSimulation, post, cfgs, pm, inits, dflt, steps, 'optimize')
+            else:
+                try:
+                    res['synth/1-bit-io'] = run_post_bitio(ctx, block, cfgs, mems, inits, dflt, steps)
+                except pyrtl.PyrtlError as e:
+                    ctx.spec_violation('synthesize:merge_io_vectors=False-rejects-memory-design',
+                                       'synthesize(merge_io_vectors=False) or simulating its result raised on a MemBlock design: %s' % e,
+                                       {'seed': ctx.seed, 'design': di, 'memories': [c.desc() for c in cfgs]})
             # optimize() alone on the word-level design
             b2 = build_design(cfgs)
             mems2 = [c.mem for c in cfgs]
